@@ -267,7 +267,7 @@ KERNELS = [
     Kernel("npstructures/hashtable.py", "HashTable", "_get_hash", "gen_hash", [("keys", "Z"), ("mod_", "Z")], {}, selfmap={"_mod": "mod_"}),
     # RunLengthArray._get_position: negative wrap of the index
     Kernel("npstructures/runlengtharray.py", "RunLengthArray", "_get_position", "gen_rle_wrap", [("idx", "Z"), ("n_", "Z")], {},
-           calls={"len:self": "n_"}, branch=lambda body: [ast.Return(value=body[0].value)]),
+           calls={"len:self": "n_", "self._ends[-1]": "n_"}, branch=lambda body: [ast.Return(value=body[0].value)]),
 ]
 
 
